@@ -1202,4 +1202,173 @@ theorem forwardRec_spec (T : TOps τ) (fuel : Nat) :
               · rw [ho] at ho'; cases ho'
                 exact (e2.evaluated k).2 (.inl (hd1 b' hb' k hk' hp))
 
+/-! ## `forward`, `backward`, `addOperator` as state transformers -/
+
+theorem forward_spec (T : TOps τ) {s : State τ} {a : Addr} (w : WF s) (hv : s.validAddr a = true) :
+    FwdSpec s a (forward T s a) := by
+  unfold forward
+  rw [if_pos hv]
+  exact forwardRec_spec T (a.oid + 1) s a w hv (Nat.lt_succ_self _)
+
+/-- whatever the address, `forward` extends the state by evaluations -/
+theorem forward_ext (T : TOps τ) {s : State τ} (a : Addr) (w : WF s) :
+    ∃ l, Ext s (forward T s a).1 l ∧ ∀ k ∈ l, Anc s k a.oid := by
+  by_cases hv : s.validAddr a = true
+  · obtain ⟨l, p⟩ := (forward_spec T w hv).post
+    refine ⟨l, p.ext, fun k hk => ?_⟩
+    obtain ⟨b, hb, h⟩ := p.anc k hk
+    simp only [List.mem_singleton] at hb; subst hb; exact h
+  · unfold forward; rw [if_neg hv]; exact ⟨[], Ext.refl s, by simp⟩
+
+/-- `backward` = a forward (possibly) followed by gradient-only updates -/
+theorem backward_ext (T : TOps τ) {s : State τ} (a : Addr) (w : WF s) :
+    ∃ l s1, Ext s s1 l ∧ (∀ k ∈ l, Anc s k a.oid) ∧ SameVals s1 (backward T s a).1 := by
+  unfold backward
+  by_cases hv : s.validAddr a = true
+  · simp only [hv, Bool.not_true, Bool.false_eq_true, if_false]
+    cases hn : s.node? a with
+    | none => exact ⟨[], s, Ext.refl s, by simp, SameVals.refl s⟩
+    | some n =>
+      simp only
+      by_cases hval : n.value.isSome = true
+      · simp only [hval, if_true]
+        exact ⟨[], s, Ext.refl s, by simp,
+          (updNode_sameVals s a (fun n => { n with grad := some (T.ones n.size) }) (fun _ => rfl)).trans
+            (sweep_sameVals T _ _)⟩
+      · have hval : n.value.isSome = false := by simpa using hval
+        simp only [hval, Bool.false_eq_true, if_false]
+        obtain ⟨l, e, hl⟩ := forward_ext T a w
+        cases hf : forward T s a with
+        | mk s1 r =>
+          rw [hf] at e
+          cases r with
+          | error err => exact ⟨l, s1, e, hl, SameVals.refl s1⟩
+          | ok v =>
+            exact ⟨l, s1, e, hl,
+              (updNode_sameVals s1 a (fun n => { n with grad := some (T.ones n.size) }) (fun _ => rfl)).trans
+                (sweep_sameVals T _ _)⟩
+  · simp only [hv, Bool.not_false, if_true]
+    exact ⟨[], s, Ext.refl s, by simp, SameVals.refl s⟩
+
+theorem backward_wf (T : TOps τ) {s : State τ} (a : Addr) (w : WF s) : WF (backward T s a).1 := by
+  obtain ⟨l, s1, e, _, sv⟩ := backward_ext T a w
+  exact sv.wf (e.wf w)
+
+theorem forward_wf (T : TOps τ) {s : State τ} (a : Addr) (w : WF s) : WF (forward T s a).1 := by
+  obtain ⟨l, e, _⟩ := forward_ext T a w
+  exact e.wf w
+
+/-! ### add_operator -/
+
+def State.push (s : State τ) (o : OpInfo τ) : State τ := { s with ops := s.ops ++ [o] }
+
+def freshOp (kind : Kind τ) (args : List Addr) (sizes : List Nat) : OpInfo τ :=
+  { kind := kind, args := args, rets := sizes.map fun n => ({ size := n } : NodeInfo τ) }
+
+theorem addOperator_eq (s : State τ) (kind : Kind τ) (args : List Addr) (sizes : List Nat) :
+    addOperator s kind args sizes =
+      if args.all s.validAddr then .ok (s.push (freshOp kind args sizes), s.ops.length) else .error .crash := rfl
+
+theorem push_getElem?_lt {s : State τ} {o : OpInfo τ} {k : Nat} (h : k < s.ops.length) :
+    (s.push o).ops[k]? = s.ops[k]? := by
+  simp [State.push, List.getElem?_append_left h]
+
+theorem push_getElem?_some {s : State τ} {o o' : OpInfo τ} {k : Nat} (h : s.ops[k]? = some o') :
+    (s.push o).ops[k]? = some o' := by
+  rw [push_getElem?_lt (List.getElem?_eq_some_iff.1 h).1, h]
+
+theorem push_getElem?_cases {s : State τ} {o o' : OpInfo τ} {k : Nat} (h : (s.push o).ops[k]? = some o') :
+    s.ops[k]? = some o' ∨ (k = s.ops.length ∧ o' = o) := by
+  by_cases hk : k < s.ops.length
+  · left; rw [← push_getElem?_lt hk]; exact h
+  · right
+    have hlen := (List.getElem?_eq_some_iff.1 h).1
+    simp only [State.push, List.length_append, List.length_singleton] at hlen
+    have : k = s.ops.length := by omega
+    subst this
+    simp [State.push] at h
+    exact ⟨rfl, h.symm⟩
+
+theorem validAddr_push {s : State τ} {o : OpInfo τ} {a : Addr} (h : s.validAddr a = true) :
+    (s.push o).validAddr a = true := by
+  obtain ⟨o', ho', hv⟩ := validAddr_iff.1 h
+  exact validAddr_iff.2 ⟨o', push_getElem?_some ho', hv⟩
+
+theorem evaluated_push {s : State τ} {o : OpInfo τ} (hnone : ∀ n ∈ o.rets, n.value = none) (k : Nat) :
+    (s.push o).evaluated k ↔ s.evaluated k := by
+  constructor
+  · rintro ⟨o', ho', n, hn, hv⟩
+    rcases push_getElem?_cases ho' with h | ⟨_, rfl⟩
+    · exact ⟨o', h, n, hn, hv⟩
+    · simp [hnone n hn] at hv
+  · rintro ⟨o', ho', n, hn, hv⟩
+    exact ⟨o', push_getElem?_some ho', n, hn, hv⟩
+
+theorem isParam_push {s : State τ} {o : OpInfo τ} {k : Nat} (hk : k < s.ops.length) :
+    (s.push o).isParam k = s.isParam k := by
+  simp [State.isParam, push_getElem?_lt hk]
+
+theorem isRnd_push {s : State τ} {o : OpInfo τ} {k : Nat} (hk : k < s.ops.length) :
+    (s.push o).isRnd k = s.isRnd k := by
+  simp [State.isRnd, push_getElem?_lt hk]
+
+theorem evaluated_lt {s : State τ} {k : Nat} (h : s.evaluated k) : k < s.ops.length := by
+  obtain ⟨o, ho, _⟩ := h
+  exact (List.getElem?_eq_some_iff.1 ho).1
+
+theorem validAddr_lt {s : State τ} {a : Addr} (h : s.validAddr a = true) : a.oid < s.ops.length := by
+  obtain ⟨o, ho, _⟩ := validAddr_iff.1 h
+  exact (List.getElem?_eq_some_iff.1 ho).1
+
+theorem WF.push {s : State τ} (w : WF s) {o : OpInfo τ} (hargs : ∀ a ∈ o.args, s.validAddr a = true)
+    (hk : KindOK o.kind o.args o.rets.length) (hnone : ∀ n ∈ o.rets, n.value = none) : WF (s.push o) := by
+  constructor
+  · intro k o' ho' a ha
+    rcases push_getElem?_cases ho' with h | ⟨rfl, rfl⟩
+    · have := w.args_lt k o' h a ha
+      exact ⟨this.1, validAddr_push this.2⟩
+    · exact ⟨validAddr_lt (hargs a ha), validAddr_push (hargs a ha)⟩
+  · intro k o' ho'
+    rcases push_getElem?_cases ho' with h | ⟨rfl, rfl⟩
+    · exact w.kind_ok k o' h
+    · exact hk
+  · intro k o' ho'
+    rcases push_getElem?_cases ho' with h | ⟨rfl, rfl⟩
+    · exact w.all_or_none k o' h
+    · exact .inl hnone
+  · intro k o' ho' hp
+    rcases push_getElem?_cases ho' with h | ⟨rfl, rfl⟩
+    · exact w.param_none k o' h hp
+    · exact hnone
+  · intro k o' ho' hev b hb hp
+    rw [evaluated_push hnone] at hev ⊢
+    rcases push_getElem?_cases ho' with h | ⟨rfl, rfl⟩
+    · have hlt := validAddr_lt (w.args_lt k o' h b hb).2
+      rw [isParam_push hlt] at hp
+      exact w.closed k o' h hev b hb hp
+    · exact absurd (evaluated_lt hev) (Nat.lt_irrefl _)
+  · intro k
+    rw [evaluated_push hnone]
+    exact w.log_iff k
+  · exact w.log_nodup
+  · show s.rndPos = s.log.countP (s.push o).isRnd
+    rw [w.rnd_count]
+    apply List.countP_congr
+    intro k hk
+    rw [isRnd_push (evaluated_lt ((w.log_iff k).1 hk))]
+
+theorem addOperator_wf {s s' : State τ} {kind : Kind τ} {args : List Addr} {sizes : List Nat} {id : Nat}
+    (w : WF s) (hk : KindOK kind args sizes.length)
+    (h : addOperator s kind args sizes = .ok (s', id)) : WF s' := by
+  rw [addOperator_eq] at h
+  split at h
+  · rename_i hall
+    simp only [Except.ok.injEq, Prod.mk.injEq] at h
+    rw [← h.1]
+    apply w.push
+    · simpa [freshOp] using hall
+    · simpa [freshOp] using hk
+    · simp [freshOp]
+  · cases h
+
 end Primitiv.Graph
